@@ -269,6 +269,16 @@ func c05Parse(o *wout, shard, n int, thorough bool) {
 		})
 		o.states += nn
 	}
+	// large documents
+	for i, s := range docgen.LargeDocs() {
+		if i%n != shard {
+			continue
+		}
+		o.beat()
+		o.states++
+		c05ParseOne(o, s)
+		c05ParseOne(o, s[:len(s)/2])
+	}
 	// nesting families
 	depths := []int{1, 2, 10, 100, 1000}
 	if thorough {
